@@ -33,6 +33,23 @@ def opReduce (kv : KV) : Option String := do
     | none => 0
   pure s!"model={model} spec={spec} blocks={nblocks}"
 
+def opGb (kv : KV) : Option String := do
+  let kn ← parseKernel (← get kv "fn")
+  let k ← parseKind (← get kv "kind")
+  let cols ← parseKeyCols (← get kv "keys")
+  let vals ← parseValList (← get kv "vals")
+  let mask ← parseMask (← get kv "mask")
+  let sort ← parseNat (← get kv "sort")
+  let threads ← parseNat (← get kv "threads")
+  let keys := rowKeys cols vals.length
+  let model := match modelReduce generatedReducers kn k keys vals mask (sort != 0) threads with
+    | some r => showLabelled r
+    | none => "error"
+  let spec := match specReduce kn k keys vals mask (sort != 0) with
+    | some r => showLabelled r
+    | none => "error"
+  pure s!"model={model} spec={spec}"
+
 def opScalar (kv : KV) : Option String := do
   let fn ← get kv "fn"
   let k ← parseKind (← get kv "kind")
@@ -51,6 +68,7 @@ def step (line : String) : String :=
     let r := match op with
       | "reduce" => opReduce kv
       | "scalar" => opScalar kv
+      | "gb" => opGb kv
       | _ => none
     r.getD "bad-op"
 
